@@ -600,7 +600,7 @@ func (g *gen) forCall(depth int, sc scope) *Node {
 	sub := sc
 	sub.inBinder, sub.inFor, sub.nMatch = true, true, 2
 	if !r.Chance(1, 5) {
-		sub.keys = nil // most loops do not look at named keys (defect: stale parent context)
+		sub.keys = nil // most loops do not look at named keys
 	}
 	cond := one(call("neq", one(mt(1)), lits(fmt.Sprint(r.Intn(5)))))
 	if r.Chance(1, 3) {
@@ -955,7 +955,7 @@ func (g *gen) plainCase() (Input, []string, bool) {
 		tags = append(tags, "workers>1")
 	}
 	if forKey {
-		tags = append(tags, "kf:C10-for-parent-context", "kf:C17-for-parent-context")
+		tags = append(tags, "for-with-key") // was defect C17-for-parent-context (fixed in /repo)
 	}
 	return in, tags, nt
 }
